@@ -94,3 +94,19 @@ def inputs_upto(alpha: list[str], n: int, cap: int = 400) -> list[str]:
             if len(out) >= cap:
                 return out
     return out
+
+
+def ranks_from_graph(graph: dict) -> dict:
+    """longest-path depth in the real first graph: a witness for the verified rank checkers (term_verdict of C03,
+    acyclic_b of C19); 0 where a cycle would be met.  The witness is checked inside Coq, never trusted."""
+    memo: dict = {}
+
+    def rk(n, stack):
+        if n in memo:
+            return memo[n]
+        if n in stack:
+            return 0
+        v = 1 + max([rk(m, stack | {n}) for m in graph.get(n, []) if m in graph] + [-1])
+        memo[n] = v
+        return v
+    return {n: rk(n, frozenset()) for n in graph}
